@@ -87,6 +87,9 @@ impl Journal {
         let client_id: i64 = 0; // TODO: we need better id information about the client, like pub_key
         let soa_serial: i64 = i64::from(soa_serial);
 
+        #[cfg(feature = "verif-hooks")]
+        crate::proto::verif::point("journal_insert_record");
+
         let count = self.conn.lock().expect("conn poisoned").execute(
             "INSERT
                                           \
